@@ -1111,8 +1111,8 @@ TEXT ·sealAsm(SB), NOSPLIT, $0-104
     CMPQ l, $8       \
     JL slowCmp       \
     MOVQ 0(x), reg3  \
-    XORQ reg3, 0(y)   \
-    ORQ (y),reg1  \
+    XORQ 0(y), reg3   \
+    ORQ reg3, reg1  \
     ADDQ $8, x       \
     ADDQ $8, y       \
     SUBQ $8, l       \
@@ -1121,8 +1121,8 @@ slowCmp:             \
     CMPQ l, $1       \
     JL cmpDone          \
     MOVB (x), reg3  \
-    XORB reg3, (y)  \
-    ORB (y), reg2   \
+    XORB (y), reg3  \
+    ORB reg3, reg2   \
     ADDQ $1, x       \
     ADDQ $1, y       \
     SUBQ $1, l       \
